@@ -203,6 +203,10 @@ StructLaws == On("pair",
          /\ Concat(c) = la
          /\ \A j \in 1..(Len(c) - 1) : Len(c[j]) = k
          /\ c # << >> => Len(c[Len(c)]) \in 1..k
+         \* no piece is empty, so the empty list has no piece at all (not one empty piece)
+         /\ \A j \in 1..Len(c) : c[j] # << >>
+         /\ (c = << >>) <=> (la = << >>)
+         /\ Len(c) * k >= Len(la) /\ (Len(c) - 1) * k < Len(la) \/ la = << >>
   /\ LET g == Grouped(la) IN
        /\ Concat(g) = la
        /\ \A j \in 1..Len(g) : g[j] # << >> /\ \A x, y \in Range1(g[j]) : Equal(x, y)
